@@ -35,6 +35,7 @@ def run(chk):
             chk.cov["traces_validated_against_impl"] += o["vectors"]
             chk.cov["evaluations"] += o["vectors"]
     t = record("frame_new", chk.path("fn.ndjson"), n=5000 if q else 60000, seed=chk.seed, all_lengths=0 if q else 1)
+    hang_violation(chk, t, "MessageFrame::new")
     r = tv("Trace_Frame", "Trace_Frame.cfg", t, shards=10, tag="C03")
     chk.add_tv("frame_new", r)
     report_rejects(chk, r, sig, lambda ev, d: "MessageFrame::new disagrees with the frame specification on a %d-byte slice (reported %s)" % (len(ev["bytes"]), ev.get("out")))
